@@ -212,20 +212,27 @@ Definition P_submit (inp : input) (cl : option caller) (obs : sub_obs) : bool :=
        && (existsb has_hang nodes || (i_conc inp <? 1)%Z || negb (is_none cl)
            || forallb (fun ocs => negb (is_nil ocs)) (o_nodes obs))
        && (* success iff some node accepted (or rejected for tolerated reasons only) within the timeout *)
-       let fins := somes (map (fun p => node_finish k (fst p) (snd p)) (combine nodes (o_nodes obs))) in
+       (* an acceptance reaches vouch when the node gives it strictly before the caller's deadline or
+          ignores the context; a request that a context-honouring node would answer at or after the
+          caller's deadline is either ended then (by the caller: recorded in o_cut, the node has not
+          accepted) or was left to be answered (the node has accepted) *)
+       let fins := somes (map (fun p => match node_finish k (fst (fst p)) (snd (fst p)) with
+                                        | Some (t, ok) => Some (t, ok && (dl_before cl t || is_nil (snd p)))
+                                        | None => None
+                                        end)
+                              (combine (combine nodes (o_nodes obs)) (o_cut obs))) in
        let oks := map fst (filter snd fins) in
-       (* the acceptances that reach vouch for sure / possibly (the caller's deadline ends the others) *)
-       let oksB := filter (dl_before cl) oks in
-       let oksE := filter (fun t => dl_before cl t || dl_at cl t) oks in
-       let asap l := let m := min_of l T in
-                     if m =? 0
-                     then (o_ret obs =? 0) || (o_ret obs =? min_of (filter (fun t => 0 <? t) l) T)
-                     else o_ret obs =? m in                        (* as soon as the first one accepts *)
-       if o_success obs
-       then existsb (fun t => t <=? T) oksE && (asap oksB || asap oksE)
-       else forallb (fun t => T <=? t) oksB
+       Nat.eqb (length (o_cut obs)) (length nodes)
+       && if o_success obs
+       then existsb (fun t => t <=? T) oks
+            && (let m := min_of oks T in
+                if m =? 0
+                then (o_ret obs =? 0) || (o_ret obs =? min_of (filter (fun t => 0 <? t) oks) T)
+                else o_ret obs =? m)                              (* as soon as the first one accepts *)
+       else forallb (fun t => T <=? t) oks
             (* failure is reported at the timeout, not before: until then a node may still accept --
-               unless the caller's deadline has passed and every node honours it *)
+               unless the caller's deadline has passed and every node honours it (the nodes whose
+               requests were nevertheless left to be answered are in oks) *)
             && ((o_ret obs =? T) || dl_passed cl (o_ret obs)).
 
 (* extents are non-empty, contiguous from a and end at b *)
